@@ -305,6 +305,9 @@ func judgeExpectedHits(r *Run, j *Judged, cl []*cls, by map[int]*OResp) {
 		if _, ok := parseDate(hdr.Get("Date")); !ok {
 			hdr.Set("Date", r.httpTime(L.TResp))
 		}
+		if r.clientConditionalSince(body, x.SeqInv) {
+			continue
+		}
 		scc := parseCC(hdr)
 		if scc.has("no-cache") || scc.has("no-store") {
 			continue
